@@ -59,9 +59,12 @@ Fixpoint dedup_from (seen : list N) (l : list N) : list N :=
   | x :: r => if existsb (N.eqb x) seen then dedup_from seen r else x :: dedup_from (x :: seen) r
   end.
 Definition demo_group := list (N * bool).
+(* the "drop" mark is a label of the target, so under version 0 (nothing dropped) two entries with the same address
+   are one target only if their marks agree as well: the identity is the pair, coded 2*addr + mark *)
+Definition tcode (t : N * bool) : N := (2 * fst t + (if snd t then 1 else 0))%N.
 Definition tr_demo (ver : N) (groups : list demo_group) : list N * list N :=
   let one (g : demo_group) :=
-    if (ver =? 0)%N then (dedup_from [] (map fst g), [])
+    if (ver =? 0)%N then (map (fun c => N.div2 c) (dedup_from [] (map tcode g)), [])
     else (dedup_from [] (map fst (filter (fun t => negb (snd t)) g)), firstn 1 (map fst (filter snd g))) in
   (flat_map (fun g => fst (one g)) groups, flat_map (fun g => snd (one g)) groups).
 
